@@ -24,7 +24,7 @@ ASSUMPTIONS = [
 REQUIRED = ['sched_stop_runs_to_completion_at_a_loop_preemption_point', 'sched_stopper_preempted_while_loop_sleeps', 'stop_in_started', 'stop_mid_chain', 'stop_in_generator_step', 'stop_via_systemexit', 'stop_via_keyboardinterrupt',
             'stop_from_second_thread', 'exit_code_given', 'events_fired_after_stop', 'stopped_handler_fires', 'queued_before_run',
             'second_cycle', 'stop_when_not_running', 'stop_of_registered_child_while_root_runs', 'systemexit_while_not_running',
-            'several_exits_in_one_run', 'codeless_exit_next_to_a_coded_one', 'loop_iteration_with_events_still_queued',
+            'several_exits_in_one_run', 'codeless_exit_next_to_a_coded_one', 'loop_iteration_with_events_still_queued', 'handler_failed_before_the_stop',
             'loop_iteration_with_a_later_priority_event_behind_generate_events']
 REQUIRED_OBLIGATIONS = ['STARTED_ONCE', 'STOPPED_ONCE', 'DRAINED', 'EXIT_CODE', 'RUN_ENDS', 'STOP_NOT_RUNNING_NOOP', 'KEEPS_PROCESSING']
 WORKER_TIMEOUT = {'quick': 300, 'thorough': 1500}
@@ -176,6 +176,8 @@ def run_case(case):
             elif e[0] == 'KBINT' and not stop_seen:
                 stop_seen = True
                 marks.add('stop_via_keyboardinterrupt')
+            elif e[0] == 'PX' and not stop_seen:
+                marks.add('handler_failed_before_the_stop')
             elif e[0] == 'THREADSTOP' and not stop_seen:
                 stop_seen = True
         n_exits = sum(1 for e in seg if e[0] in ('STOPCALL', 'SYSEXIT'))
@@ -335,6 +337,11 @@ def corpus():
             cs.append({'name': 'lone-link-prio-%r-%s' % (pr, act[0]), 'handlers': chain(1, act, 3, prios={0: pr, 1: pr, 2: 0, 3: pr}, lone=(-1, 0, 1, 2)),
                        'cycles': [{}, {'pre_fires': [E('y')]}]})
     cs.append({'name': 'lone-link-prio-gen', 'handlers': chain(1, ['stopmgr', None], 2, gen_stop=True, prios={0: 1, 1: 1, 2: 1}, lone=(-1, 0, 1)), 'cycles': [{}, {}]})
+    # failing handlers on the way (ordinary exceptions and ones that do not derive from Exception, in plain handlers and generator steps)
+    for kind in (['raise'], ['raise', 'base']):
+        for act in (['stopmgr', 3], ['sysexit', None], ['stopmgr', None]):
+            cs.append({'name': 'failing-handlers-%s-%s' % (len(kind), act[0]), 'handlers': chain(1, act, 2) + [HD(43, 'x', [list(kind)], prio=2), HD(44, 'y', [['yield', None], list(kind)], gen=True)],
+                       'cycles': [{'pre_fires': [E('x')]}, {}]})
     cs.append({'name': 'kbint', 'handlers': chain(1, ['kbint'], 2), 'cycles': [{}, {}, {}]})
     cs.append({'name': 'kbint-gen', 'handlers': chain(1, ['kbint'], 0, gen_stop=True), 'cycles': [{}, {}]})
     cs.append({'name': 'thread', 'handlers': chain(1, ['fire', E('release_stopper')], 1), 'cycles': [{'thread_stop': True}, {'thread_stop': True, 'pre_fires': [E('x')]}]})
@@ -366,6 +373,11 @@ def gen_case(rng):
         hs.append(HD(40, 'x', [['fire', E('y')]] * rng.randint(0, 2), prio=1))
     if rng.random() < 0.3:
         hs.append(HD(41, 'y', [['yield', None], ['ret', 'v']], gen=True))
+    if rng.random() < 0.25:
+        # handlers that fail - with an ordinary exception or one that does not derive from Exception: nobody has called stop(), the loop goes on
+        hs.append(HD(43, rng.choice(['x', 'y']), [rng.choice([['raise'], ['raise', 'base']])], prio=rng.choice([0, 2])))
+        if rng.random() < 0.4:
+            hs.append(HD(44, rng.choice(['x', 'y']), [['yield', None], rng.choice([['raise'], ['raise', 'base']])], gen=True))
     cycles = []
     for _ in range(rng.randint(1, 3)):
         c = {'pre_fires': [E(rng.choice(['x', 'y'])) for _ in range(rng.randint(0, 3))]}
